@@ -213,6 +213,16 @@ pub fn run(args: &Args) -> i32 {
     strings.push("a\nb ".to_string());
     strings.push("trailing\n\n\n".to_string());
     strings.push("  indented first line\nsecond\n".to_string());
+    // strings of blanks / line breaks only, short and beyond the folding width
+    for n in [1usize, 2, 3, 5, 81, 90] {
+        strings.push("\n".repeat(n));
+        strings.push(" ".repeat(n));
+        strings.push(" \n".repeat(n));
+        strings.push("\n ".repeat(n));
+        strings.push("\t".repeat(n));
+        strings.push(format!("{}x", "\n".repeat(n)));
+        strings.push(format!("x{}", "\n".repeat(n)));
+    }
     let alphabet: Vec<char> = "an1~-.:#,<'?\"[]{}&*!|>%@`=+exy0_ \t\n\r\u{FEFF}\u{85}\u{2028}\u{7}\u{9b}\u{7f}\\é".chars().collect();
     let nrand = args.num("random", 0);
     for _ in 0..nrand {
